@@ -31,7 +31,7 @@ import pipeline
 import regen_c13
 
 LEVEL = "proof"
-INCOHERENT_SIG = "dict-with-equal-keys-merged-on-load:%s"
+INCOHERENT_SIG = "dict-key-mutated-after-insertion:%s"
 PLUGIN = "c13_plugin"
 STAGES = ["gen", "erase", "overwrite"]
 LANGS = pipeline.LANGS
@@ -82,14 +82,14 @@ def judge(run, where, c13, found, model_broken):
     bad = False
     inco = s.get("incoherent") or []
     if inco:
-        run.tally("programs_with_a_dict_holding_equal_keys", ",".join(sorted({x.get("key_class", "?") for x in inco})))
+        run.tally("programs_with_a_dict_key_mutated_after_insertion", ",".join(sorted({x.get("key_class", "?") for x in inco})))
     for d in c13.get("diffs", []):
         bad = True
         leg = d["leg"]
         sig = "%s:%s" % (leg.split(":")[0] if leg.startswith("roundtrip") else leg, d.get("hash", ""))
         if inco and leg in ("redump", "lookups", "redump-under-identity-hash"):
-            # the live program holds a dict with two keys that are equal now (mutated after insertion);
-            # load re-inserts them one by one, so q has fewer entries
+            # the live program holds a dict with a key that was mutated after its insertion (equal to another key
+            # now, or stored under a stale hash); load re-inserts the keys one by one, so q's dict differs
             sig = INCOHERENT_SIG % ",".join(sorted({x.get("key_class", "?") for x in inco}))
             d = dict(d, incoherent_dicts=inco[:3])
         if leg.startswith("mutation") and d.get("control_two_copies_of_p_differ"):
@@ -101,6 +101,16 @@ def judge(run, where, c13, found, model_broken):
                                control=d.get("control_two_copies_of_p_differ"),
                                note="p = the live program, q = utils.load_program(utils.dump_program(p)); the real "
                                     "code distinguishes them"), signature=sig)
+    if s.get("py_iso") is not None and not inco:
+        # the Python reference checker alone (no model involved): the graph read back differs from the one saved
+        bad = True
+        sig = "rebuilt-graph-differs"
+        if sig not in found:
+            found.add(sig)
+            run.violation(dict(where, kind="failing-input", leg="graph", detail=s["py_iso"],
+                               note="the object graph of q = load_program(dump_program(p)) is not isomorphic to p's "
+                                    "(kinds, strings, attribute values, container order, sharing); judged by "
+                                    "export_heap.iso on the two live graphs"), signature=sig)
     for d in c13.get("model_diffs", []):
         if inco and d["leg"] in ("load-iso-real-q", "heap-p-iso-heap-q"):
             # outside the model's precondition (keys of a dict pairwise distinct): Python's SETITEM replaces
